@@ -973,15 +973,43 @@ fn check_signal(ctx: &mut Ctx, p: &SignalPlan) -> Res {
         }
         Load::Flood(k, kind) => {
             for c in 0..(*k).max(1) {
-                let stop = stop.clone();
+                let (stop, bad, replies, pk) = (stop.clone(), bad_reply.clone(), replies.clone(), pk.clone());
                 let kind = *kind;
                 handles.push(std::thread::spawn(move || {
                     let sock = UdpSocket::bind("127.0.0.1:0").unwrap();
                     sock.set_nonblocking(true).unwrap();
+                    crate::srvlab::set_rcvbuf_pub(&sock, 8 << 20);
                     let valid = fresh_request(Proto::Classic, b"c19f", c as u64);
                     let invalid = vec![0x55u8; 1024];
                     let mut n = 0u64;
-                    // open loop: replies are left to pile up (and be dropped) at our socket
+                    // open loop; a reader thread on the same socket verifies every reply it can get hold of
+                    // (replies beyond its rate are dropped by the kernel at our socket)
+                    let rsock = sock.try_clone().unwrap();
+                    let (rstop, rbad, rreplies, rpk, rvalid) = (stop.clone(), bad.clone(), replies.clone(), pk.clone(), valid.clone());
+                    let reader = std::thread::spawn(move || {
+                        let mut fv = FastVerifier::new(&rpk);
+                        let mut buf = [0u8; 4096];
+                        let mut idle = 0;
+                        // keep reading for a short while after the flood stops: the last replies matter most
+                        while idle < 200 {
+                            match rsock.recv_from(&mut buf) {
+                                Ok((len, _)) => {
+                                    idle = 0;
+                                    rreplies.fetch_add(1, Ordering::Relaxed);
+                                    if let Err(e) = fv.verify(Proto::Classic, &rvalid, &buf[..len]) {
+                                        *rbad.lock().unwrap() = Some(format!("{} ({} bytes, under flood)", e, len));
+                                        break;
+                                    }
+                                }
+                                Err(_) => {
+                                    if rstop.load(Ordering::Relaxed) {
+                                        idle += 1;
+                                    }
+                                    std::thread::sleep(Duration::from_micros(500));
+                                }
+                            }
+                        }
+                    });
                     while !stop.load(Ordering::Relaxed) {
                         n += 1;
                         let d = match kind % 3 {
@@ -991,6 +1019,7 @@ fn check_signal(ctx: &mut Ctx, p: &SignalPlan) -> Res {
                         };
                         let _ = sock.send_to(d, addr);
                     }
+                    let _ = reader.join();
                 }));
             }
         }
